@@ -22,6 +22,18 @@ def search_more(prop, cfg, seed, workdir, budget_s=240):
         for s in cfg["streams"]:
             if time.time() - t0 > budget_s:
                 return None, tried
+            if s.get("scenario"):
+                import subprocess
+                cmd = [x.replace("{seed}", str(seed + 1000 * k)).replace("{tier}", "thorough" if k > 1 else "quick").replace("{bin}", lib.BIN) for x in s["scenario"]]
+                try:
+                    p = subprocess.run(cmd, stdout=subprocess.PIPE, stderr=subprocess.DEVNULL, timeout=max(30, budget_s - (time.time() - t0)))
+                    for l in p.stdout.decode(errors="replace").split("\n"):
+                        tried += 1
+                        if " VIOL" in l and not lib.known_match(prop, "input %s -> %s" % (" ".join(cmd), l.strip())):
+                            return {"op": " ".join(cmd), "go": l.strip()[:2000], "seed": seed + 1000 * k}, tried
+                except subprocess.TimeoutExpired:
+                    pass
+                continue
             gen, go, _, _ = stream_cmds(s, prop, seed + 1000 * k, "thorough" if k > 1 else "quick", workdir)
             ops = os.path.join(workdir, "search.ops")
             out = os.path.join(workdir, "search.go.out")
@@ -35,7 +47,7 @@ def search_more(prop, cfg, seed, workdir, budget_s=240):
                 for op in fo:
                     g = fg.readline()
                     tried += 1
-                    if fr.search(g):
+                    if fr.search(g) and not lib.known_match(prop, "input %s -> %s" % (op.strip(), g.strip())):
                         return {"op": op.strip()[:2000], "go": g.strip()[:2000], "seed": seed + 1000 * k}, tried
     return None, tried
 
@@ -92,15 +104,42 @@ def main():
     total = flagged_n = diff_n = distinct = 0
     samples, dist = [], {}
     first_diffs, first_flags = [], []
-    if br.go_ok and (br.lean_ok or os.path.exists(os.path.join(lib.LEAN, ".lake", "build", "bin", cfg["streams"][0]["lean"][0].split("/")[-1]))):
+    if br.go_ok:
         for s in cfg["streams"]:
+            if s.get("scenario"):
+                # Go-only scenario: the binary prints one line per run; " VIOL " marks a violation
+                sub = lambda xs: [x.replace("{seed}", str(seed)).replace("{tier}", tier).replace("{bin}", lib.BIN) for x in xs]
+                out_path = os.path.join(workdir, s["name"] + ".scen.out")
+                import subprocess
+                try:
+                    with open(out_path, "wb") as f:
+                        p = subprocess.run(sub(s["scenario"]), stdout=f, stderr=subprocess.PIPE, timeout=s.get("timeout", 1500))
+                    rc = p.returncode
+                    err = p.stderr.decode(errors="replace")[-400:]
+                except subprocess.TimeoutExpired:
+                    rc, err = 124, "scenario timed out"
+                lines = [l.rstrip("\n") for l in open(out_path, errors="replace") if l.strip()]
+                total += len(lines)
+                distinct += len(set(" ".join(t for t in l.split(" ") if not t.startswith(("seed=", "run="))) for l in lines))
+                samples += [{"scenario": s["name"], "line": l[:300]} for l in lines[:3]]
+                dist[s["name"] + ".runs"] = len(lines)
+                for l in lines:
+                    if " VIOL" in l:
+                        flagged_n += 1
+                        if len(first_flags) < 400:
+                            first_flags.append({"op": s["name"] + " " + " ".join(sub(s["scenario"])[1:]), "go": l[:600], "lean": "(scenario: no model line)"})
+                if rc != 0:
+                    broken.append({"kind": "scenario-crash", "what": "%s exited with %d: %s" % (s["name"], rc, err)})
+                if not lines:
+                    broken.append({"kind": "scenario-empty", "what": s["name"] + " printed nothing"})
+                continue
             gen, go, lean, stats = stream_cmds(s, prop, seed, tier, workdir)
             st = lib.run_stream(s["name"], gen, go, lean, workdir)
             n, flagged, diffs, smp, dn = lib.compare_stream(st, cfg["flag"], diff_violation=cfg.get("diff_violation"))
             total += n; flagged_n += len(flagged); diff_n += len(diffs); distinct += dn
             samples += smp[:6]
             first_diffs += [d for d in diffs if d][:5]
-            first_flags += [f for f in flagged if f][:10]
+            first_flags += [f for f in flagged if f][:400]
             if os.path.exists(stats):
                 for k, v in json.load(open(stats)).items():
                     dist[s["name"] + "." + k] = v
@@ -111,13 +150,14 @@ def main():
     # direct violations found by the property's own oracle on the implementation
     for f in first_flags:
         violations.append(("input %s -> %s" % (f["op"], f["go"]), {"kind": "input", "op": f["op"], "observed": f["go"], "model": f["lean"]}))
-    if diff_n and not first_flags:
+    unknown = [v for v in violations if not lib.known_match(prop, v[0])]
+    if diff_n and not unknown:
         broken.append({"kind": "correspondence", "what": "model and implementation disagree on %d of %d lines" % (diff_n, total),
                        "first": first_diffs[:3]})
 
     # 4. something no longer checks but no failing input yet: search
     searched = 0
-    if broken and not violations:
+    if broken and not unknown:
         if br.go_ok:
             hit, searched = search_more(prop, cfg, seed, workdir)
         else:
@@ -131,10 +171,13 @@ def main():
     # 5. report
     rc = 0
     reported = 0
+    known_seen = set()
     for text, payload in violations:
         k = lib.known_match(prop, text)
         if k:
-            print("KNOWN-FINDING: property=%s %s" % (prop, k["what"]))
+            if k["what"] not in known_seen:
+                known_seen.add(k["what"])
+                print("KNOWN-FINDING: property=%s %s" % (prop, k["what"]))
             continue
         payload["how_to_run"] = "python3 run/check.py %s --tier %s (VERIF_SEED=%d)" % (prop, tier, seed)
         path = lib.write_replay(prop, payload)
